@@ -122,11 +122,10 @@ theorem enum_pairs (vars : Array String) (h : vars.size ≤ 65536) :
   apply List.ext_getElem
   · simp
   · intro i h1 h2
+    have hi : i < vars.size := by simpa using h2
     simp only [Array.toList_map, Array.toList_mapIdx, List.getElem_map, List.getElem_mapIdx, List.getElem_zipIdx,
       Nat.zero_add]
-    simp only [List.length_map, List.length_mapIdx, Array.length_toList] at h1
     rw [asU16_of_lt (by omega)]
-    rfl
 
 /-- `vars.iter().enumerate().map(|(id, name)| (name.clone(), id as u16)).collect::<HashMap<_, _>>()` is the model's
     `buildIndex` started from an empty map of some capacity -/
@@ -193,7 +192,6 @@ theorem BddVariableSet_new_eq_model (vars : Array String) :
   rw [if_neg h2, if_neg h2]
   have heq := index_equiv vars (by omega)
   rw [heq.size_eq]
-  simp only []
   by_cases h3 : (VS.buildIndex vars.toList 0 {}).size ≠ vars.size
   · rw [if_pos h3, if_pos h3]; exact .panic _ _
   · rw [if_neg h3, if_neg h3]
@@ -213,7 +211,8 @@ theorem BddVariableSet_new_ok (vars : Array String) (h : VS.Acceptable 65533 var
     · cases h1
     · split at h1
       · cases h1
-      · split at h1
+      · dsimp only at h1
+        split at h1
         · cases h1
         · cases h1; rfl
   subst hvs
@@ -296,5 +295,17 @@ example : ∃ m, Algo3.BddVariableSet_new #["a", "b", "a"] = .panic m :=
 
 example : ∃ m, Algo3.BddVariableSet_new #["a", "b&c"] = .panic m :=
   ⟨_, BddVariableSet_new_panic_invalid _ (by decide) ⟨"b&c", by simp, by decide⟩⟩
+
+/-- the GENERATED constructor on four names (one of them empty, one non-ASCII): look-ups by name -/
+example : ∃ T, Algo3.BddVariableSet_new #["a", "b_1", "é", ""] = .ok T ∧ T.1 = 4 ∧
+    Algo2.BddVariableSet_var_by_name T "é" = some 2 ∧ Algo2.BddVariableSet_var_by_name T "zz" = none := by
+  obtain ⟨T, hT, hs, _⟩ := BddVariableSet_new_ok #["a", "b_1", "é", ""] (by
+    refine ⟨by decide, ?_, by decide⟩
+    intro s hs
+    simp at hs
+    rcases hs with rfl | rfl | rfl | rfl <;> decide)
+  refine ⟨T, hT, hs.count, ?_, ?_⟩
+  · rw [var_by_name_eq]; show T.2.2["é"]? = _; rw [hs.index]; decide
+  · rw [var_by_name_eq]; show T.2.2["zz"]? = _; rw [hs.index]; decide
 
 end B.AlgoEq3Names
